@@ -560,7 +560,19 @@ class PVLParser(object):
                 "an Assignment-Statement."
             )
 
-        self.parse_around_equals(tokens)
+        try:
+            self.parse_around_equals(tokens)
+        except LexerError:
+            raise
+        except ValueError:
+            # The Parameter Name has already been consumed and cannot be
+            # returned to the tokens, and nothing but an Assignment Statement
+            # can begin with it, so this is not a production to back out of
+            # (which would silently drop the name) but an error in the text.
+            tokens.throw(
+                ValueError,
+                f'Expecting an equals sign after "{parameter_name}" '
+            )
 
         try:
             # print(f'parameter name: {parameter_name}')
